@@ -358,6 +358,19 @@ class Facts:
             return self._recvars[name]
         self._recvars[name] = None
         bs = self.bind.get(name, [])
+        if name in self.params and not bs and self.g is not self.scan.a.entry:
+            # a parameter that receives such a record at every call site (`for entry in walk(): self._handle(entry)`)
+            got = None
+            sites = self.scan.sites.get(self.g.fq, [])
+            for h, call in sites:
+                a = self.scan.args_by_param(self.g, call).get(name)
+                rv = self.scan.facts(h).record_var(a.id) if isinstance(a, ast.Name) and h is not self.g else None
+                if rv is None or (got is not None and (rv[1] is not got[1] or list(rv[2][0][1]) != list(got[2][0][1]))):
+                    return None
+                got = rv
+            if got is not None:
+                self._recvars[name] = (None, got[1], got[2])
+            return self._recvars[name]
         if name in self.params or len(bs) != 1 or bs[0][0] != "for" or bs[0][2] is not None:
             return None
         w = self.scan.generator_of(self.g, bs[0][1])
@@ -421,7 +434,7 @@ class Facts:
             if len(bs) == 1 and bs[0][0] == "for" and self.scan.generator_of(self.g, bs[0][1]) is not None:
                 return "forgen"
             if len(bs) == 1 and bs[0][0] == "recfield":
-                return "forgen"
+                return "param" if bs[0][1] in self.params else "forgen"
         for n in R:
             bs = self.bind.get(n, [])
             if len(bs) == 1 and bs[0][0] == "for" and self.scan.recursive_source(self.g, bs[0][1]) is not None:
@@ -547,8 +560,20 @@ class Scan:
 
     def facts(self, g: FuncInfo) -> Facts:
         if g.fq not in self._facts:
-            self._facts[g.fq] = Facts(self, g)
+            fx = Facts.__new__(Facts)
+            self._facts[g.fq] = fx  # registered first: looking at the callers' facts may come back here
+            fx.__init__(self, g)
         return self._facts[g.fq]
+
+    def args_by_param(self, g: FuncInfo, call: ast.Call) -> dict[str, ast.expr]:
+        names = list(g.param_names)
+        if g.cls is not None and g.outer is None and not g.is_staticmethod and names and isinstance(call.func, ast.Attribute):
+            names = names[1:]
+        out = {p: a for p, a in zip(names, call.args) if not isinstance(a, ast.Starred)}
+        for k in call.keywords:
+            if k.arg in names:
+                out[k.arg] = k.value
+        return out
 
     def callees(self, h: FuncInfo, c: ast.Call) -> list[FuncInfo]:
         try:
@@ -669,6 +694,8 @@ class Scan:
             return self.F(g, e.value, R, env, depth)
         if isinstance(e, ast.Attribute) and env and norm(e) in env:
             return env[norm(e)]
+        if isinstance(e, ast.Attribute) and isinstance(e.value, ast.Name) and R and any(n.startswith(e.value.id + ".") for n in R) and fx.record_field(e) is not None and fx.record_field(e) not in R:
+            return atom(f"REC.{e.attr}")  # another field of the record whose path is tracked: fixed by each yield (see totals)
         if isinstance(e, ast.Name):
             if e.id in env:
                 return env[e.id]
@@ -872,9 +899,16 @@ class Scan:
         for k in call.keywords:
             if k.arg in names and fx.is_alias(k.value, R):
                 hit.add(k.arg)
-        if not hit:
-            return None
         out: set[str] = set()
+        for p, a in self.args_by_param(h, call).items():
+            if isinstance(a, ast.Name):
+                for n in R:
+                    if n.startswith(a.id + ".") and fh.record_var(p) is not None:
+                        rf = fh.record_field(ast.Attribute(value=ast.Name(id=p, ctx=ast.Load()), attr=n.split(".", 1)[1], ctx=ast.Load()))
+                        if rf is not None:
+                            out |= fh.cls_of(rf)
+        if not hit and not out:
+            return None
         for p in hit:
             out |= fh.cls_of(p)
         return frozenset(out)
@@ -900,7 +934,7 @@ class Scan:
         Rn = set(R or ()) | {n.split(".", 1)[0] for n in (R or ()) if "." in n and not n.startswith("<")}
 
         def deps(name: str) -> set[str]:
-            if name in canon:
+            if name in canon or name.startswith("REC."):
                 return Rn
             import re as _re
 
@@ -1064,12 +1098,16 @@ class Scan:
                     rs = fw.roots(pe)
                     Rw = rs[0] if len(rs) == 1 else (fw.cls_of(an) if an is not None else None)
                     env_y = dict(env or {})
+                    fixed = []
                     for f2, ye in fields.items():
                         if f2 != fld:
-                            env_y[f"{var}.{f2}"] = self.F(w, ye, Rw, {})
+                            val = self.F(w, ye, Rw, {})
+                            env_y[f"{var}.{f2}"] = val
+                            a2 = atom(f"REC.{f2}")
+                            fixed.append(f_or([f_and([a2, val]), f_and([f_not(a2), f_not(val)])]))
                     loc_y = self.guard(g, node, R, env_y)
                     for t in self.totals(w, y, Rw, depth + 1):
-                        outs.append(f_and([loc_y, t]))
+                        outs.append(f_and([loc_y, t, *fixed]))
                 return outs or [local]
             n = next(n for n in R if len(fx.bind.get(n, [])) == 1 and fx.bind[n][0][0] == "for" and self.generator_of(g, fx.bind[n][0][1]) is not None)
             _k, it, idx, target = fx.bind[n][0]
@@ -1244,6 +1282,14 @@ class Scan:
         for kw in call.keywords:
             if kw.arg in R:
                 return cls(kw.value)
+        for n in R:
+            if "." in n and not n.startswith("<"):
+                base, fld = n.split(".", 1)
+                a = self.args_by_param(g, call).get(base)
+                if isinstance(a, ast.Name) and fh.record_var(a.id) is not None:
+                    rf = fh.record_field(ast.Attribute(value=ast.Name(id=a.id, ctx=ast.Load()), attr=fld, ctx=ast.Load()))
+                    if rf is not None:
+                        return fh.cls_of(rf)
         return None
 
     # ------------------------------------------------------------------ events
